@@ -42,6 +42,22 @@ type Req struct {
 	TokLen    int    `json:"toklen"`
 	// Code of the reply the handler produces (0 = 2.05): a failure reply is a reply like any other
 	Code int `json:"code,omitempty"`
+	// NoResp > 0: the request carries the No-Response option (RFC 7967) with this value - a second
+	// feature next to de-duplication. A reply of a class the value marks as not of interest is refused
+	// by the response writer: a confirmable request then gets its bare acknowledgement (every copy of
+	// it), a non-confirmable one got no reply and is outside the statement; in every other case the
+	// option changes nothing about duplicates.
+	NoResp int `json:"noResp,omitempty"`
+}
+
+// replyWithheld: the handler's reply is of a class the request's No-Response value suppresses.
+func replyWithheld(q Req) bool {
+	code := q.Code
+	if code == 0 {
+		code = 69
+	}
+	bit := map[int]int{2: 2, 4: 8, 5: 16}[code>>5]
+	return q.NoResp&bit != 0
 }
 
 type Step struct {
@@ -311,8 +327,12 @@ func Exec(t *testing.T, sc Scenario, shard int, r *evid.Run) (fail *evid.Failure
 					}
 					usedMID[j] = mid
 				}
+				ropts := peer.PathOpts(q.Beh)
+				if q.NoResp > 0 {
+					ropts = append(ropts, refcodec.Opt{Num: 258, Val: []byte{byte(q.NoResp)}})
+				}
 				d := peer.Datagram(refcodec.Msg{Type: q.Type, MID: mid, Code: 2, Token: token(j, q.TokLen),
-					Opts: peer.PathOpts(q.Beh), Payload: []byte{0xC5, byte(j)}})
+					Opts: ropts, Payload: []byte{0xC5, byte(j)}})
 				for c := 0; c < max(st.Copies, 1); c++ {
 					if _, seen := first[j]; !seen {
 						first[j] = time.Since(start)
@@ -467,7 +487,7 @@ func Exec(t *testing.T, sc Scenario, shard int, r *evid.Run) (fail *evid.Failure
 		if len(invsJ) == 0 {
 			return evid.Failf("dedup/fresh-request-not-executed", sc, "request %d (MID %d, type %d) was delivered %d time(s) but never reached the handler; server replies for it: %d", j, mid, q.Type, len(cs), len(replies))
 		}
-		deduped := q.Type == peer.CON || q.Beh == "piggy" || q.Beh == "slow" || q.Beh == "nested"
+		deduped := q.Type == peer.CON || ((q.Beh == "piggy" || q.Beh == "slow" || q.Beh == "nested") && !replyWithheld(q))
 		if !deduped {
 			continue // a NON request without a reply through the response writer may legitimately run again
 		}
@@ -583,6 +603,7 @@ func gen(t *rapid.T) Scenario {
 			Beh:       rapid.SampledFrom([]string{"piggy", "piggy", "none", "separate", "slow", "nested"}).Draw(t, "beh"),
 			Code:      rapid.SampledFrom([]int{0, 0, 0, 68, 132, 160, 163, 165}).Draw(t, "code"),
 			TokLen:    rapid.SampledFrom([]int{1, 2, 4, 8}).Draw(t, "toklen"),
+			NoResp:    rapid.SampledFrom([]int{0, 0, 0, 0, 2, 8, 16, 26, 24}).Draw(t, "noresp"),
 		})
 	}
 	sent := map[int]bool{}
